@@ -18,38 +18,61 @@ from tensora import Tensor, evaluate  # noqa: E402
 from tensora.compile import tensor_cdefs  # noqa: E402
 
 SRC = Tensor.from_dok({(0,): 1.0, (2,): 3.0}, dimensions=(4,), format="s")
-KIND = {"sparse": ("o(i) = b(i)", "s"), "dense": ("o(i) = b(i)", "d"), "scalar": ("o() = b(i)", "")}
+SRC2 = Tensor.from_dok({(0, 1): 1.0, (2, 3): 3.0}, dimensions=(4, 4), format="ss")
+SRC2B = Tensor.from_dok({(1, 1): 1.0, (3, 0): 3.0}, dimensions=(4, 4), format="ss")  # disjoint from SRC2
+# kind -> (assignment, output format, inputs)
+KIND = {
+    "sparse": ("o(i) = b(i)", "s", lambda: {"b": SRC}),
+    "dense": ("o(i) = b(i)", "d", lambda: {"b": SRC}),
+    "scalar": ("o() = b(i)", "", lambda: {"b": SRC}),
+    "sparse2": ("o(i,j) = b(i,j)", "ss", lambda: {"b": SRC2}),
+    "sparse2empty": ("o(i,j) = b(i,j) * c(i,j)", "ss", lambda: {"b": SRC2, "c": SRC2B}),
+}
 
 
-def addresses(t, kind):
+def addresses(t):
+    """every non-NULL kernel-allocated array of the result, in level order: pos, crd per compressed level, then vals"""
     ct = t.cffi_tensor
     out = []
-    if kind == "sparse":
-        lv = tensor_cdefs.cast("int32_t***", ct.indices)
-        out.append(int(tensor_cdefs.cast("uintptr_t", lv[0][0])))
-        out.append(int(tensor_cdefs.cast("uintptr_t", lv[0][1])))
-    out.append(int(tensor_cdefs.cast("uintptr_t", ct.vals)))
+    lv = tensor_cdefs.cast("int32_t***", ct.indices)
+    for l in range(int(ct.order)):
+        if int(ct.mode_types[l]) == 1:
+            for k in (0, 1):
+                a = int(tensor_cdefs.cast("uintptr_t", lv[l][k]))
+                if a:
+                    out.append(a)
+    a = int(tensor_cdefs.cast("uintptr_t", ct.vals))
+    if a:
+        out.append(a)
     return out
 
 
 def run_history(ops):
+    gc.collect()
+    lib.verif_reset()
     names = {}
     watch = []  # model array id -> interposer index
     freed_seen = set()
     per_step = []
     double = []
 
-    def new_tensor(kind, src):
-        text, fmt = KIND[kind]
-        t = evaluate(text, fmt, b=src)
-        for a in addresses(t, kind):
-            watch.append(lib.verif_watch(ctypes.c_void_p(a)))
+    def new_tensor(kind, src=None):
+        text, fmt, mk = KIND[kind]
+        args = mk()
+        if src is not None:
+            args = {"b": src}
+        t = evaluate(text, fmt, **args)
+        for a in addresses(t):
+            w = lib.verif_watch(ctypes.c_void_p(a))
+            if w < 0:
+                raise RuntimeError("interposer watch table full")
+            watch.append(w)
         return t
 
     for op in ops:
         k = op[0]
         if k == "eval":
-            t = new_tensor(op[2], SRC)
+            t = new_tensor(op[2])
             names[op[1]] = t
             del t
         elif k == "alias":
@@ -66,13 +89,18 @@ def run_history(ops):
         elif k == "feed":
             if op[2] in names:
                 src = names[op[2]]
+                # feed the named tensor itself to a kernel (converted only when its order/format differ
+                # from what the `sparse`/`dense` copy kernels take)
                 if src.order == 0:
                     src1 = Tensor.from_dok({(0,): float(src)}, dimensions=(4,), format="s")
+                elif src.order == 2:
+                    # (an empty input would make the kernel hand back a NULL crd: keep one entry so that the
+                    # result has the `sparse` kind's three arrays)
+                    src1 = Tensor.from_dok({(0,): 1.0, **{(i,): v for (i, j), v in src.to_dok().items()}}, dimensions=(4,), format="s")
                 elif src.format.deparse() != "s":
                     src1 = src.to_format("s")
                 else:
                     src1 = src
-                # feed the named tensor itself when it already has the kernel's input format
                 t = new_tensor(op[3], src1)
                 del src, src1
                 names[op[1]] = t
